@@ -102,9 +102,37 @@ def ctx_view(task):
     return tuple(sorted((k, v) for k, v in ctx.items() if not k.startswith('_')))
 
 
+def emit_tokens(label, pattern: str) -> list:
+    """Tokens a task with this emit pattern makes visible (one per log/print/err step)."""
+    return [f'<{label}.{i}>' for i, step in enumerate(pattern.split('+')) if step in ('log', 'warn', 'print', 'err')]
+
+
+def _emit(task):
+    pat = WORLD.emit.get(task.label)
+    if not pat:
+        return
+    import sys
+    from labtech.utils import logger
+    for i, step in enumerate(pat.split('+')):
+        tok = f'<{task.label}.{i}>'
+        if step == 'log':
+            logger.info(f'log{tok}')
+        elif step == 'warn':
+            logger.warning(f'warn{tok}')
+        elif step == 'print':
+            print(f'out{tok}')
+        elif step == 'flush':
+            sys.stdout.flush()
+        elif step == 'err':
+            sys.stderr.write(f'err{tok}\n')
+        elif step == 'eflush':
+            sys.stderr.flush()
+
+
 def _run(self):
     k = tkey(self)
     WORLD.rec('start', k)
+    _emit(self)
     if WORLD.on_run is not None:
         WORLD.on_run(self)
     vals = []
